@@ -401,6 +401,9 @@ impl KotoVm {
             return Ok(ReturnOrYield::Return(KValue::Null));
         }
 
+        #[cfg(koto_verif)]
+        self.verif_event("Resume", 0, 0, "");
+
         let result = self.execute_instructions()?;
 
         match self.execution_state {
